@@ -107,6 +107,11 @@ func PlmnIdToCdr(modelsPlmnid models.PlmnId) cdrType.PLMNId {
 	if len(modelsPlmnid.Mcc) != 3 || (len(modelsPlmnid.Mnc) != 2 && len(modelsPlmnid.Mnc) != 3) {
 		return cdrPlmnId
 	}
+	for _, c := range modelsPlmnid.Mcc + modelsPlmnid.Mnc {
+		if c < '0' || c > '9' {
+			return cdrPlmnId
+		}
+	}
 	mcc := strings.Split(modelsPlmnid.Mcc, "")
 	mnc := strings.Split(modelsPlmnid.Mnc, "")
 	if len(modelsPlmnid.Mnc) == 2 {
